@@ -653,6 +653,25 @@ func initCodeFor(runtime []byte) []byte {
 	return append(init, runtime...)
 }
 
+// idleReceiver: the `to` of a transaction type that does not use it. Wallets send the zero address; nothing
+// checks it, so it may as well name the sender, somebody with stakes and rewards of his own, or a contract.
+func (s *GenSource) idleReceiver(w *World) []byte {
+	t := s.t
+	switch unif(t, 10, "idleTo") {
+	case 0:
+		return pick(t, s.all, "idleToActor").Addr
+	case 1:
+		if ks := sortedKeys(w.Rewards); len(ks) > 0 {
+			return unhx(pick(t, ks, "idleToEarner"))
+		}
+	case 2:
+		if ks := sortedKeys(w.Contracts); len(ks) > 0 {
+			return unhx(pick(t, ks, "idleToContract"))
+		}
+	}
+	return make([]byte, 20)
+}
+
 func (s *GenSource) liveStakes(w *World) []*MStake {
 	var out []*MStake
 	for _, k := range sortedKeys(w.Delegs) {
@@ -742,7 +761,7 @@ func (s *GenSource) genTx(w *World, b *Block) ([]byte, string) {
 	case "setdoc":
 		sp.from = pick(t, s.all, "from")
 		sp.typ = ctypes.TRX_SETDOC
-		sp.to = make([]byte, 20)
+		sp.to = s.idleReceiver(w)
 		n := pick(t, []int{0, 1, 8, 2048, 2049}, "nameLen")
 		sp.payload = &ctypes.TrxPayloadSetDoc{Name: string(make([]byte, n)), URL: pick(t, []string{"", "http://x", "u"}, "url")}
 		sp.note = fmt.Sprintf("setdoc %s len=%d", sp.from.Name, n)
@@ -872,7 +891,10 @@ func (s *GenSource) genTx(w *World, b *Block) ([]byte, string) {
 		if len(earners) > 0 && pct(t, 70, "withdrawByEarner") {
 			sp.from = pick(t, earners, "earner")
 		}
-		sp.to = make([]byte, 20)
+		sp.to = s.idleReceiver(w)
+		if len(earners) > 1 && pct(t, 25, "withdrawNamesAnotherEarner") {
+			sp.to = pick(t, earners, "otherEarner").Addr
+		}
 		cum := u256(0)
 		if rw, ok := w.Rewards[ak(sp.from.Addr)]; ok {
 			cum = rw.Cum.Clone()
@@ -897,7 +919,7 @@ func (s *GenSource) genTx(w *World, b *Block) ([]byte, string) {
 		sp.note = fmt.Sprintf("withdraw %s req=%s cum=%s", sp.from.Name, req.Dec(), cum.Dec())
 	case "propose":
 		sp.typ = ctypes.TRX_PROPOSAL
-		sp.to = make([]byte, 20)
+		sp.to = s.idleReceiver(w)
 		if pct(t, 80, "proposerIsVal") && len(s.vals) > 0 {
 			sp.from = pick(t, s.vals, "from")
 		} else {
@@ -937,7 +959,7 @@ func (s *GenSource) genTx(w *World, b *Block) ([]byte, string) {
 		sp.note = fmt.Sprintf("propose %s start=%d period=%d apply=%d opts=%d", sp.from.Name, start, period, apply, nopt)
 	case "vote":
 		sp.typ = ctypes.TRX_VOTING
-		sp.to = make([]byte, 20)
+		sp.to = s.idleReceiver(w)
 		ok := sortedKeys(w.Open)
 		var id []byte
 		choice := int32(0)
